@@ -23,6 +23,20 @@ def pick(rng, l):
   return l[int(rng.integers(0, len(l)))]
 
 
+# quantizer OBJECTS with options that the string form omits or misplaces: a layer must serialise the object, not its text
+AOBJ = ["quantized_relu(4,1,negative_slope=0.25)", "quantized_bits(4,1,1,alpha=1,qnoise_factor=0.5)", "quantized_relu(6,2,relu_upper_bound=1.5)",
+        "quantized_relu(4,1,is_quantized_clip=False)", "quantized_bits(6,1,1,alpha='auto_po2',scale_axis=0)", "quantized_relu(5,2)"]
+
+
+def act_arg(rng):
+  """a QActivation argument: a quantizer string (2/3) or a quantizer object built with function-changing options (1/3)"""
+  from qkeras.quantizers import get_quantizer
+  import qkeras.quantizers as Q   # noqa: F401  (eval namespace)
+  if rng.integers(0, 3) == 0:
+    return eval("Q." + pick(rng, AOBJ))   # pylint: disable=eval-used
+  return pick(rng, AQ[:-2])
+
+
 def gen_model(rng, idx):
   import tensorflow.keras.layers as L
   from tensorflow.keras import Model, Input
@@ -46,7 +60,7 @@ def gen_model(rng, idx):
         x = qkeras.QSeparableConv2D(int(rng.integers(1, 4)), 3, padding="same", depthwise_quantizer=pick(rng, WQ),
                                     pointwise_quantizer=pick(rng, WQ), bias_quantizer=pick(rng, WQ[:6] + [None]), name=f"sp{idx}_{j}")(x)
       if rng.integers(0, 2):
-        x = qkeras.QActivation(pick(rng, AQ[:-2]), name=f"a{idx}_{j}")(x)
+        x = qkeras.QActivation(act_arg(rng), name=f"a{idx}_{j}")(x)
     if rng.integers(0, 2):
       x = qkeras.QAveragePooling2D(2, average_quantizer=pick(rng, ["quantized_bits(8,0,1)", None]), name=f"p{idx}")(x)
     x = qkeras.QGlobalAveragePooling2D(average_quantizer=pick(rng, ["quantized_bits(8,0,1)", None]), name=f"g{idx}")(x) if rng.integers(0, 2) \
@@ -59,6 +73,8 @@ def gen_model(rng, idx):
   for j in range(int(rng.integers(1, 3))):
     x = qkeras.QDense(int(rng.integers(1, 5)), use_bias=bool(rng.integers(0, 2)), kernel_quantizer=pick(rng, WQ),
                       bias_quantizer=pick(rng, WQ[:6] + [None]), activation=pick(rng, AQ), name=f"d{idx}_{j}")(x)
+    if rng.integers(0, 3) == 0:
+      x = qkeras.QActivation(act_arg(rng), name=f"ad{idx}_{j}")(x)
     if rng.integers(0, 4) == 0:
       # the adaptive activation layer (fresh moving statistics) with its function-changing options
       x = qkeras.QAdaptiveActivation(pick(rng, ["quantized_relu", "quantized_bits"]), int(rng.integers(3, 9)),
